@@ -135,7 +135,9 @@ def run(ctx, prop):
         "distinct_nontrivial": cancel_points + sum(1 for c in rows if c["kind"] != "cancelat" and any(e["e"] == "quiescent" for e in c["evs"])),
         "rule": "scenarios on the real TaskLane with verif hooks: seeded random programs (lanes 1-3, queue 0-2, 1-4 producers, slow / "
                 "panicking tasks, tiny timeouts, cancel / deadline / none), cancellation fired inside the hook of each protocol point "
-                "(k-th occurrence), pinned-worker at-rest states, simultaneous typed panics with Status pollers; non-trivial = "
+                "(k-th occurrence), pinned-worker at-rest states, simultaneous typed panics with Status pollers, bursts with and without per-step events (polled PendingTask maximum), "
+                "timeouts, last-task-panics-under-Wait, panics on foreign workers, burst-then-probe rounds, marathons (70 k tasks / 300 k "
+                "panics per worker), a 40-lane lane; non-trivial = "
                 "cancellation points actually hit + scenarios that reached a judged quiescent state",
         "exhaustive": False, "scenario_kinds": kinds, "hook_events_witnessed": sorted(hook_evs),
         "cancel_points_hit": cancel_points, "race_build": race, "race_reports": races,
